@@ -279,7 +279,10 @@ func Progress() {
 // Yield is Y for hand-written harness code: call it after any real blocking operation.
 //
 //go:norace
-func Yield(site string) { Y(site) }
+func Yield(site string) {
+	Progress() // the harness only gets here when a call into the relay has returned: whatever it did, it is not spinning
+	Y(site)
+}
 
 // Sleep sleeps on the simulated clock.
 //
